@@ -133,6 +133,13 @@ def validate_job_dir_and_return_meta(output_dir):
     if len(screen_metadata) == 0:
         return None
 
+    # the metadata job of the prospective workflow does not depend on the
+    # step's own outputs, so the step is only complete once its selection exists
+    selected_plate = list(glob.glob(os.path.join(output_dir, "*", "selected_plate")))
+
+    if len(selected_plate) == 0:
+        return None
+
     screen_metadata = screen_metadata[0]
 
     with open(screen_metadata, "r") as f:
